@@ -9,6 +9,6 @@ sys.path.insert(0, '.')
 from lib import vlib
 vlib.coq_project_sync()
 PY
-(cd coq && timeout 3000 make -j16 2>&1 | tail -5)
+(cd coq && timeout 3000 make -k -j16 2>&1 | tail -5)
 (cd /repo && go build ./... && go test -vet=off -count=1 -run '^$' ./... >/dev/null 2>&1 || true)
 echo setup done
